@@ -81,6 +81,37 @@ theorem all_missing_refused (disks : List ScanCount) (c : ScanCount) (hc : c ∈
 /-- non-vacuity: the seeded way to break it (treating 0 blocks as "unset") is excluded -/
 example : minParity [5, 0, 5] = 0 ∧ refuseParity false false [5, 0, 5] 5 = true := by decide
 
+/-! ### the zero-size rule (scan.c scan_file: "has unexpected zero size")
+
+A recorded file found again (by inode or by path) with another size or time-stamp is re-inserted;
+if it was recorded with a non-zero size and is now empty, sync refuses unless `--force-zero`.
+The rule looks at the recorded SIZE only: whether the blocks of the file ever reached the parity
+(a file recorded by an interrupted or partial sync) plays no role. -/
+
+/-- a recorded file met again by the scan: recorded size, how many of its blocks are synced, size now -/
+structure Refound where
+  recordedSize : Nat
+  syncedBlocks : Nat
+  totalBlocks : Nat
+  sizeNow : Nat
+  changed : Bool        -- size or time-stamp differ from the record (otherwise the file is kept as it is)
+
+def zeroTrigger (f : Refound) : Bool := f.changed && f.recordedSize != 0 && f.sizeNow == 0
+
+def refuseZero (forceZero : Bool) (files : List Refound) : Bool := !forceZero && files.any zeroTrigger
+
+/-- any recorded non-empty file that turns up empty makes sync refuse — also when none or only some of
+    its blocks were ever synced -/
+theorem zero_size_refused (files : List Refound) (f : Refound) (hf : f ∈ files)
+    (hrec : f.recordedSize ≠ 0) (hnow : f.sizeNow = 0) (hch : f.changed = true) : refuseZero false files = true := by
+  simp only [refuseZero, Bool.not_false, Bool.true_and, List.any_eq_true]
+  exact ⟨f, hf, by simp [zeroTrigger, hrec, hnow, hch]⟩
+
+theorem zero_rule_ignores_sync_state (f : Refound) (k : Nat) :
+    zeroTrigger { f with syncedBlocks := k } = zeroTrigger f := rfl
+
+theorem force_zero_proceeds (files : List Refound) : refuseZero true files = false := by simp [refuseZero]
+
 /-! ### the lock: `flock` on the file named `<content>.lock`
 
 A lock is held on an inode, a command finds the inode through the name.  As long as nobody
